@@ -101,17 +101,18 @@ def v4Tail (ws : List Nat) (best : Option (Nat × Nat)) : Bool :=
   | some (0, l) => l == 6 || (l == 5 && ws.getD 5 0 == 0xffff)
   | _ => false
 
-/-- `socket.inet_ntop(AF_INET6, packed v)` -/
-def ntop6 (v : Nat) : List Char :=
-  let ws := words v
-  let best := longestRun (ws.map (· == 0))
+/-- the token list glibc prints for groups `ws` of value `v`, given the chosen zero run -/
+def ntop6Toks (v : Nat) (ws : List Nat) (best : Option (Nat × Nat)) : List (List Char) :=
   let toks := ws.map hex
   let toks := if v4Tail ws best then toks.take 6 ++ [ntoa (v % 4294967296)] else toks
-  let toks := match best with
-    | none => toks
-    | some (b, l) =>
-      (if b == 0 then [[]] else []) ++ toks.take b ++ [[]] ++ toks.drop (b + l)
-        ++ (if b + l == 8 then [[]] else [])
-  [':'].intercalate toks
+  match best with
+  | none => toks
+  | some (b, l) =>
+    (if b == 0 then [[]] else []) ++ toks.take b ++ [[]] ++ toks.drop (b + l)
+      ++ (if b + l == 8 then [[]] else [])
+
+/-- `socket.inet_ntop(AF_INET6, packed v)` -/
+def ntop6 (v : Nat) : List Char :=
+  [':'].intercalate (ntop6Toks v (words v) (longestRun ((words v).map (· == 0))))
 
 end NV.Text6
